@@ -175,13 +175,28 @@ theorem pvs_needles_bounds_partial (f e0 eps : ℝ) (x : Cx ℝ) (h0 : 0 < e0) (
   subst h
   exact ⟨rfl, pvsRealN_nonneg h0 he hf0 hf1, pvsRealN_le_arith h0 he hf0 hf1⟩
 
-/-- NOT PROVED (stated only): the random-needles value also lies between the Hashin–Shtrikman bounds (in particular above
-    the harmonic mean).  Missing: the sign of the needles quadratic at the two Maxwell Garnett values (a degree-5 polynomial
-    inequality); the oracle checks it numerically on the implementation. -/
-def pvs_needles_between_hs_full : Prop :=
-  ∀ (f e0 eps : ℝ) (x : Cx ℝ), 0 < e0 → 0 < eps → 0 ≤ f → f ≤ 1 → pvs .needles f ⟨e0, 0⟩ ⟨eps, 0⟩ = .ok x →
+/-- **pvs_needles_between_hs** (formerly a `_full` claim): the random-needles Polder–van Santen value of two loss-free phases lies
+    between the Hashin–Shtrikman bounds (the Maxwell Garnett values of the mixture and of its phase-inverted twin) - from the sign of the
+    needles quadratic at the two bounds, `∓ f(1−f)(ε−e0)³·(positive)` -/
+theorem pvs_needles_between_hs (f e0 eps : ℝ) (x : Cx ℝ) (h0 : 0 < e0) (he : 0 < eps) (hf0 : 0 ≤ f) (hf1 : f ≤ 1)
+    (h : pvs .needles f ⟨e0, 0⟩ ⟨eps, 0⟩ = .ok x) :
+    (e0 ≤ eps → (mgSpheres f ⟨e0, 0⟩ ⟨eps, 0⟩).re ≤ x.re ∧ x.re ≤ (mgSpheres (1 - f) ⟨eps, 0⟩ ⟨e0, 0⟩).re) ∧
+    (eps ≤ e0 → (mgSpheres (1 - f) ⟨eps, 0⟩ ⟨e0, 0⟩).re ≤ x.re ∧ x.re ≤ (mgSpheres f ⟨e0, 0⟩ ⟨eps, 0⟩).re) ∧
     min (mgSpheres f ⟨e0, 0⟩ ⟨eps, 0⟩).re (mgSpheres (1 - f) ⟨eps, 0⟩ ⟨e0, 0⟩).re ≤ x.re ∧
-    x.re ≤ max (mgSpheres f ⟨e0, 0⟩ ⟨eps, 0⟩).re (mgSpheres (1 - f) ⟨eps, 0⟩ ⟨e0, 0⟩).re
+    x.re ≤ max (mgSpheres f ⟨e0, 0⟩ ⟨eps, 0⟩).re (mgSpheres (1 - f) ⟨eps, 0⟩ ⟨e0, 0⟩).re := by
+  unfold pvs at h
+  rw [pvs_needles_real cxsqrt_isCSqrt h0 he hf0 hf1] at h
+  simp only [Except.ok.injEq] at h
+  subst h
+  rw [mgSpheres_real h0 he hf0 hf1, mgSpheres_real he h0 (sub_nonneg.mpr hf1) (by linarith)]
+  obtain ⟨hup, hdn⟩ := pvsN_between_hs_real h0 he hf0 hf1
+  refine ⟨hup, hdn, ?_, ?_⟩
+  · rcases le_total e0 eps with hle | hle
+    · exact le_trans (min_le_left _ _) (hup hle).1
+    · exact le_trans (min_le_right _ _) (hdn hle).1
+  · rcases le_total e0 eps with hle | hle
+    · exact le_trans (hup hle).2 (le_max_right _ _)
+    · exact le_trans (hdn hle).2 (le_max_left _ _)
 
 /-! ### mixtures of shapes -/
 
